@@ -35,11 +35,14 @@ func (m *ModelServer) ListWasteRecords(ctx context.Context, req *traits.ListWast
 	pageToken := req.GetPageToken()
 	startIndex := m.model.GetWasteRecordCount()
 	if pageToken != "" {
-		_, err := strconv.Atoi(req.GetPageToken())
+		index, err := strconv.Atoi(pageToken)
 		if err != nil {
-			return nil, err
+			return nil, status.Errorf(codes.InvalidArgument, "bad page token: %v", err)
 		}
-		startIndex, _ = strconv.Atoi(pageToken)
+		if index < 0 || index > startIndex {
+			return nil, status.Errorf(codes.InvalidArgument, "bad page token: index %d out of range", index)
+		}
+		startIndex = index
 	}
 
 	count := req.PageSize
